@@ -320,4 +320,55 @@ class LocaleTokens(Sub):
         return False, loc
 
 
-SUBS = [Phrases(), Direction(), InWords(), LocaleTokens()]
+class OtherEntryPoints(Sub):
+    name = "date_and_time_entry_points"
+    backends = ("py", "rust")
+    n = {"quick": 5000, "thorough": 120000}
+    shards = {"quick": 2, "thorough": 4}
+    rule = ("Date.diff_for_humans(other) with other a Date, a DateTime (a Date subclass), a native date or a native datetime, and Time.diff_for_humans(other) with a Time or a "
+            "native time, x locales x absolute: total, well-formed, and the same phrase as DateTime.diff_for_humans between the two midnights / the two times on one day "
+            "(whose direction, unit and count are checked by the other sub-checks); non-trivial: the reference is not of the instance's own class")
+
+    def strategy(self, ctx):
+        day = st.builds(lambda o: o, st.integers(D.date(1900, 1, 1).toordinal(), D.date(2100, 12, 31).toordinal()))
+        near = st.builds(lambda o, d: (o, max(D.date(1900, 1, 1).toordinal(), min(D.date(2100, 12, 31).toordinal(), o + d))), day,
+                         st.sampled_from([0, 1, -1, 6, 7, -7, 13, 14, 27, 28, 29, 30, 31, -31, 45, 364, 365, 366, -366, 400, 1000]) | st.integers(-20000, 20000))
+        tod = st.integers(0, 86399).flatmap(lambda a: st.tuples(st.just(a), st.sampled_from([0, 1, -1, 9, 10, 11, 59, 60, 61, 3599, 3600, 3601, -3600, 7200, 43200]) | st.integers(-86399, 86399)))
+        return st.fixed_dictionaries({"days": near, "tod": tod, "us": st.sampled_from([0, 0, 1, 999999]), "kind": st.sampled_from(
+            ["date/date", "date/datetime", "date/aware-datetime", "date/native-date", "date/native-datetime", "time/time", "time/native-time"]),
+            "locale": st.sampled_from(LOCALES), "absolute": st.booleans(), "set_locale": st.booleans()})
+
+    def check(self, case, ctx):
+        kind, loc, absolute = case["kind"], case["locale"], case["absolute"]
+        o1, o2 = case["days"]
+        d1, d2 = D.date.fromordinal(o1), D.date.fromordinal(o2)
+        a, delta = case["tod"]
+        b = (a + delta) % 86400
+        h = lambda v: (v // 3600, v // 60 % 60, v % 60)
+        kw = {} if case["set_locale"] else {"locale": loc}
+        if case["set_locale"]:
+            pendulum.set_locale(loc)
+        try:
+            if kind.startswith("date/"):
+                x = pendulum.date(d1.year, d1.month, d1.day)
+                other = {"date/date": lambda: pendulum.date(d2.year, d2.month, d2.day),
+                         "date/datetime": lambda: pendulum.naive(d2.year, d2.month, d2.day, *h(b), case["us"]),
+                         "date/aware-datetime": lambda: pendulum.datetime(d2.year, d2.month, d2.day, *h(b), case["us"], tz="Europe/Paris"),
+                         "date/native-date": lambda: D.date(d2.year, d2.month, d2.day),
+                         "date/native-datetime": lambda: D.datetime(d2.year, d2.month, d2.day, *h(b), case["us"])}[kind]()
+                got = x.diff_for_humans(other, absolute, **kw)
+                ref = pendulum.datetime(d1.year, d1.month, d1.day).diff_for_humans(pendulum.datetime(d2.year, d2.month, d2.day), absolute, **kw)
+            else:
+                x = pendulum.time(*h(a), case["us"])
+                other = pendulum.time(*h(b)) if kind == "time/time" else D.time(*h(b))
+                got = x.diff_for_humans(other, absolute, **kw)
+                ref = pendulum.datetime(2021, 6, 15, *h(a), case["us"]).diff_for_humans(pendulum.datetime(2021, 6, 15, *h(b)), absolute, **kw)
+        finally:
+            if case["set_locale"]:
+                pendulum.set_locale("en")
+        well_formed(f"{kind} diff_for_humans", got)
+        req(got == ref, f"{kind}: diff_for_humans differs from the phrase for the same two values as DateTimes", got=got, as_datetimes=ref, locale=loc, absolute=absolute)
+        return kind not in ("date/date", "time/time"), kind
+
+
+SUBS = [Phrases(), Direction(), InWords(), LocaleTokens(), OtherEntryPoints()]
